@@ -46,6 +46,7 @@ void Runner::viol(const char *prop, const std::string &cls, const std::string &s
   v.cls = cls;
   v.sig = std::string(prop) + "/" + cls + (sigrest.empty() ? "" : "/" + sigrest);
   if (plan.w.low_fds != 7 && v.sig.find("low-fds=") == std::string::npos) v.sig += fmt("/low-fds=%d", plan.w.low_fds);
+  if (K->n_stepped_reads > 0 && (!strcmp(prop, "C07") || !strcmp(prop, "C08") || !strcmp(prop, "C15") || !strcmp(prop, "C16"))) v.sig += "/after-clock-step";
   v.detail = detail;
   v.op = op;
   out.viols.push_back(v);
@@ -224,7 +225,8 @@ void Runner::setup() {
   // signals
   for (int s : plan.w.ignored) if (s >= 1 && s <= 64 && s != SIGKILL && s != SIGSTOP) k->caller->disp[s] = D_IGN;
   for (int s : plan.w.handled) if (s >= 1 && s <= 64 && s != SIGKILL && s != SIGSTOP) k->caller->disp[s] = D_HANDLER;
-  k->caller->disp[SIGPIPE] = D_IGN;  // README: required for the closed-pipe error to be observable
+  // README: ignoring SIGPIPE is required for the closed-pipe error to be observable; plans that never write may leave it alone
+  k->caller->disp[SIGPIPE] = plan.w.sigpipe == 0 ? D_IGN : plan.w.sigpipe == 2 ? D_HANDLER : D_DFL;
   k->specs = plan.children;
   k->faults = plan.faults;
   for (auto &f : k->faults) f.fired = false;
@@ -292,7 +294,8 @@ void Runner::on_kill(Thread *t, int pid, int sig, Proc *target) {
          fmt("kill(%d, %d) issued by the library", pid, sig), t->op);
     return;
   }
-  if (!target || target->uid != t->expect_uid || target->st == Proc::REAPED || target->st == Proc::FOREIGN) {
+  bool own = target && (target->uid == t->expect_uid || ((op.kind == OP_START || op.kind == OP_RUN) && target->start_op == t->op));
+  if (!own || target->st == Proc::REAPED || target->st == Proc::FOREIGN) {
     viol("C06", "signal-to-foreign-or-reaped", fmt("op=%s/sig=%s", op_name[op.kind], what),
          fmt("kill(%d, %d): target is %s, expected child uid %d", pid, sig,
              !target ? "no process" : target->st == Proc::FOREIGN ? "an unrelated process (pid reused)" : "another process", t->expect_uid),
@@ -333,7 +336,8 @@ void Runner::on_park(Thread *t, Kind k) {
   if (k == K_write) probe(P_write_parked);
   HState *h = op.h >= 0 && (size_t) op.h < hs.size() ? &hs[(size_t) op.h] : nullptr;
   if (op.kind == OP_START) {
-    viol("C17", "start-blocked", fmt("in=%s", kind_name[k]), fmt("reproc_start parked inside %s", kind_name[k]), t->op);
+    // (reaping the child of a failed start waits for a process that is already exiting: not a wait for the program)
+    if (k != K_waitpid) viol("C17", "start-blocked", fmt("in=%s", kind_name[k]), fmt("reproc_start parked inside %s", kind_name[k]), t->op);
   } else if ((op.kind == OP_READ || op.kind == OP_WRITE) && h && h->nonblocking) {
     viol("C17", "nonblocking-call-blocked", fmt("op=%s/in=%s", op_name[op.kind], kind_name[k]),
          fmt("nonblocking %s parked inside %s", op_name[op.kind], kind_name[k]), t->op);
@@ -350,24 +354,28 @@ void Runner::on_park(Thread *t, Kind k) {
 }
 
 // ------------------------------------------------------------------ final checks
+// What the child of a handle saw on its stdin, compared with what the writes reported; run when the handle is destroyed and
+// for the handles still alive at the end of the plan.
+void Runner::check_child_streams(size_t hi) {
+  HState &h = hs[hi];
+  Proc *c = proc_of(h);
+  if (!c) return;
+  if (c->in_bad)
+    viol("C02", "stdin-corrupted", "", fmt("child of handle %zu received bytes on stdin that differ from what was written", hi), h.start_op);
+  if (c->in_off > h.wr_off + h.wr_inflight)
+    viol("C02", "stdin-duplicated", "", fmt("child of handle %zu received %llu bytes but only %llu were accepted", hi,
+                                           (unsigned long long) c->in_off, (unsigned long long) h.wr_off), h.start_op);
+  if (c->in_eof && !c->in_gone && h.piped[0] && c->in_off != h.wr_off && !c->in_bad && !h.wr_inflight)
+    viol("C02", "stdin-lost", "", fmt("child of handle %zu saw end-of-file after %llu bytes, %llu were accepted", hi,
+                                     (unsigned long long) c->in_off, (unsigned long long) h.wr_off), h.start_op);
+  if (c->reaps > 1) viol("C01", "reaped-twice", "", fmt("child of handle %zu was reaped %d times", hi, c->reaps), h.start_op);
+}
+
 void Runner::final_checks() {
   Kernel *k = K;
   bool clean = !k->hung && !k->capped && k->fatal.empty();
   // streams: no stdin corruption; EOF bookkeeping
-  for (size_t hi = 0; hi < hs.size(); hi++) {
-    HState &h = hs[hi];
-    Proc *c = proc_of(h);
-    if (!c) continue;
-    if (c->in_bad)
-      viol("C02", "stdin-corrupted", "", fmt("child of handle %zu received bytes on stdin that differ from what was written", hi), h.start_op);
-    if (c->in_off > h.wr_off + h.wr_inflight)
-      viol("C02", "stdin-duplicated", "", fmt("child of handle %zu received %llu bytes but only %llu were accepted", hi,
-                                             (unsigned long long) c->in_off, (unsigned long long) h.wr_off), h.start_op);
-    if (c->in_eof && h.piped[0] && c->in_off != h.wr_off && !c->in_bad && !h.wr_inflight)
-      viol("C02", "stdin-lost", "", fmt("child of handle %zu saw end-of-file after %llu bytes, %llu were accepted", hi,
-                                       (unsigned long long) c->in_off, (unsigned long long) h.wr_off), h.start_op);
-    if (c->reaps > 1) viol("C01", "reaped-twice", "", fmt("child of handle %zu was reaped %d times", hi, c->reaps), h.start_op);
-  }
+  for (size_t hi = 0; hi < hs.size(); hi++) check_child_streams(hi);
   if (k->hung) {
     // classify the hang: waiting for a live child is the plan's business, anything else is a finding
     for (Thread *t : k->threads) {
@@ -467,6 +475,8 @@ RunResult run_plan(const Plan &plan, const RunOpts &opts) {
   K->run();
   r.out.probes[P_getcwd_grew] += K->n_getcwd_erange;
   r.out.probes[P_data_at_death] += K->n_data_at_death;
+  r.out.probes[P_descendant_left] += K->n_descendants;
+  r.out.probes[P_wall_clock_stepped] += K->n_stepped_reads ? 1 : 0;
   r.out.probes[P_reoccupied] += K->reoccupied.size();
   for (auto &f : K->faults) {
     if (!f.fired || f.err != EINTR) continue;
